@@ -25,12 +25,19 @@ def sq(s):
     return '"' + s.replace("\\", "\\\\").replace('"', '\\"').replace("\n", "\\n").replace("\r", "\\r").replace("\t", "\\t") + '"'
 
 
-def run_selene(args, cwd, env_extra=None, timeout=120, stdin=None):
+def run_selene(args, cwd, env_extra=None, timeout=120, stdin=None, nofile=None):
+    """`nofile`: soft limit on open file descriptors for the child (RLIMIT_NOFILE)"""
     env = dict(os.environ)
     env.pop("SELENE_VERIF_TRACE", None)
     if env_extra:
         env.update(env_extra)
-    p = subprocess.run([vlib.SELENE_EXE] + args, cwd=cwd, capture_output=True, timeout=timeout, env=env, input=stdin)
+    pre = None
+    if nofile:
+        import resource
+        def pre():
+            soft, hard = resource.getrlimit(resource.RLIMIT_NOFILE)
+            resource.setrlimit(resource.RLIMIT_NOFILE, (min(nofile, hard), hard))
+    p = subprocess.run([vlib.SELENE_EXE] + args, cwd=cwd, capture_output=True, timeout=timeout, env=env, input=stdin, preexec_fn=pre)
     return p.returncode, p.stdout.decode("utf-8", "replace"), p.stderr.decode("utf-8", "replace")
 
 
